@@ -247,6 +247,15 @@ func (o *ovsdbClient) connect(ctx context.Context, reconnect bool) error {
 	if o.rpcClient != nil {
 		return ErrAlreadyConnected
 	}
+	if reconnect {
+		// need to ensure deferredUpdates is cleared on every reconnect attempt
+		for _, db := range o.databases {
+			db.cacheMutex.Lock()
+			db.deferredUpdates = make([]*bufferedUpdate, 0)
+			db.deferUpdates = true
+			db.cacheMutex.Unlock()
+		}
+	}
 
 	connected := false
 	connectErrors := []error{}
@@ -1350,16 +1359,15 @@ func (o *ovsdbClient) handleDisconnectNotification() {
 		o.rpcMutex.Unlock()
 		suppressionCounter := 1
 		connect := func() error {
-			// need to ensure deferredUpdates is cleared on every reconnect attempt
-			for _, db := range o.databases {
-				db.cacheMutex.Lock()
-				db.deferredUpdates = make([]*bufferedUpdate, 0)
-				db.deferUpdates = true
-				db.cacheMutex.Unlock()
-			}
 			ctx, cancel := context.WithTimeout(context.Background(), o.options.timeout)
 			defer cancel()
+			// deferredUpdates is cleared by connect, once it knows that nobody
+			// else has connected meanwhile
 			err := o.connect(ctx, true)
+			if err == ErrAlreadyConnected {
+				// a Connect call got there first: nothing left to do
+				return nil
+			}
 			if err != nil {
 				if suppressionCounter < 5 {
 					o.logger.V(2).Error(err, "failed to reconnect")
